@@ -205,6 +205,28 @@ pub fn snow_from_rm_oracle<const PL: usize, const DL: usize>(hs: &Hs, name: &str
     )
 }
 
+/// Ghost-logging stubs for C06 (hybrid hash, logging cipher), endpoint A ids.
+pub fn snow_from_rm_ghost<const PL: usize, const DL: usize>(hs: &Hs, name: &str, fixed_ephemeral: bool) -> HandshakeState {
+    unsafe {
+        CKEY[0] = hs.sym.k;
+    }
+    load_dh::<PL>(hs, EP_A);
+    snow_from_rm_with::<PL>(
+        hs,
+        name,
+        fixed_ephemeral,
+        Objs {
+            rng: Box::new(SRng),
+            cipher: Box::new(GCipher::<0>),
+            hasher: Box::new(HHash::<8, 0>),
+            cipher_i: Box::new(GCipher::<1>),
+            cipher_r: Box::new(GCipher::<2>),
+            s: Box::new(SDh::<PL, DL, 0>),
+            e: Box::new(SDh::<PL, DL, 1>),
+        },
+    )
+}
+
 /// Compare a snow snapshot (+ the stub statics of endpoint `ids`) with a reference-model state.
 /// Returns a bitmask of differing components (0 = equal): used as `assert!(diff == 0)`.
 pub fn diff_state<P: Prims>(snap: &Snapshot, ids: Ids, hs: &Hs) -> u32 {
